@@ -109,26 +109,41 @@ func (x *Exec) wakeNotify(cfg *Config, cv TV, all bool, pos token.Pos) {
 	}
 }
 
-func (x *Exec) myKind(cv TV) *waitKind {
+// kindOf: the waiter kind a path is verified for: the kind chosen for this
+// path when the contract lists several (option waitkinds a b), else the
+// function's single kind (option waitkind a).
+func (x *Exec) kindOf(cfg *Config) string {
+	if cfg != nil && cfg.kind != "" {
+		return cfg.kind
+	}
+	if x.c != nil {
+		return x.c.Options["waitkind"]
+	}
+	return ""
+}
+
+func (x *Exec) myKind(cfg *Config, cv TV, pos token.Pos) *waitKind {
 	kinds := x.kindsOf(cv)
 	if len(kinds) == 0 {
 		return nil
 	}
-	want := ""
-	if x.c != nil {
-		want = x.c.Options["waitkind"]
-	}
+	want := x.kindOf(cfg)
 	for _, k := range kinds {
 		if k.kind == want {
 			return k
 		}
 	}
-	unsupported("function parks on %s.%s but names no declared waitkind (option waitkind ...)", kinds[0].strct, kinds[0].cond)
+	if want == "" {
+		unsupported("function parks on %s.%s but names no declared waitkind (option waitkind ...)", kinds[0].strct, kinds[0].cond)
+	}
+	// this kind of waiter is not declared to park on this condition variable:
+	// the park must be unreachable
+	x.oblige(cfg, "park-on-undeclared-cond", kinds[0].strct+"."+kinds[0].cond+"/"+want, False, []string{"C07"}, pos)
 	return nil
 }
 
 func (x *Exec) wakePark(cfg *Config, cv TV, ld *lockDecl, o *origin, pos token.Pos) {
-	k := x.myKind(cv)
+	k := x.myKind(cfg, cv, pos)
 	if k == nil {
 		return
 	}
@@ -142,7 +157,7 @@ func (x *Exec) wakePark(cfg *Config, cv TV, ld *lockDecl, o *origin, pos token.P
 }
 
 func (x *Exec) wakeResume(cfg *Config, cv TV, ld *lockDecl, o *origin, pos token.Pos) {
-	k := x.myKind(cv)
+	k := x.myKind(cfg, cv, pos)
 	if k == nil {
 		return
 	}
